@@ -513,6 +513,10 @@ func main() {
 	overlay := map[string]string{}
 	for _, pkg := range pkgs {
 		dir := filepath.Join(repo, pkg)
+		if filepath.IsAbs(pkg) { // a package outside the repository (the harness' own micro-programs)
+			dir = pkg
+			pkg = "abs" + strings.ReplaceAll(pkg, "/", "_")
+		}
 		ents, err := os.ReadDir(dir)
 		if err != nil {
 			fmt.Fprintln(os.Stderr, "instr:", err)
